@@ -113,6 +113,8 @@ def oracle_stmt(orc, key, fr):
     if r < 92:
         if fr.kind == 'bf' and not wrote:
             return {'s': 'write', 'c': h.pick(orc.get('contents', CONTENTS)), 'sz': h.pick(orc.get('sizes', SIZES))}
+        if orc.get('retpool'):
+            return {'s': 'return', 'v': h.pick(orc['retpool'])}
         return {'s': 'return', 'container': True} if orc.get('mutate') else {'s': 'return'}
     return {'s': 'raise'}
 
@@ -203,6 +205,13 @@ PROFILES = {
     # in-place mutation of every value that crosses the API (C11), then unchanged rebuilds
     'mutate': {'mutate': True, 'p_same_root': 1.0, 'p_crash': 0.0, 'ext': [0, 0, 0, 1], 'builds': [3, 4],
                'p_clean': 0.0, 'p_vers': 0.0, 'raise': 8, 'kinds': ['list_dir', 'walk', 'list_dir', 'is_file', 'read']},
+    'refuse': {'refuse': True},
+    # base histories for fault injection (every eligible library call is a fault point)
+    'fault': {'p_crash': 0.1, 'p_clean': 0.1, 'raise': 10, 'ext': [0, 1, 1, 2], 'builds': [2, 3],
+              'catch': 80},
+    # persistence (C16): exotic return values / names / versions, caught failures, unchanged rebuilds
+    'persist': {'exotic': True, 'p_same_root': 1.0, 'p_crash': 0.05, 'ext': [0, 0, 0, 1], 'builds': [2, 3],
+                'p_clean': 0.1, 'p_vers': 0.4, 'raise': 20, 'maxstmts': [2, 3, 4], 'exotic_vers': True},
     # duplicates: few targets / keys so that the same path or key is requested again - directly,
     # nested, after a cached subtree was reused, after the first occurrence failed
     'dup': {'dup': True, 'p_same_root': 0.8, 'p_crash': 0.05, 'ext': [0, 0, 1], 'builds': [3, 4],
@@ -264,8 +273,78 @@ def make_structured(seed, profile):
             'steps': steps}
 
 
+# exotic JSON values (C16): unicode incl. non-BMP and a lone surrogate, big integers, float corner
+# cases, deep nesting, non-string dictionary keys (stringified on the way in), tuples, empties
+def _T(v):
+    from . import terms
+    return terms.to_term(v)
+
+
+def exotic_pool():
+    deep = []
+    cur = deep
+    for _ in range(12):
+        nxt = []
+        cur.append({'n': nxt})
+        cur = nxt
+    vals = ['', 'plain', 'caf\u00e9 \u4e2d\u6587', '\U0001F600 emoji', 'lone \ud800 surrogate', 'quote " back\\slash \n newline \x00 nul',
+            0, -1, 2 ** 31, 2 ** 63, -2 ** 63 - 1, 10 ** 40, 1.0, -0.0, 0.1, 1e308, 5e-324, float('inf'), -float('inf'),
+            True, False, None, [], {}, [[]], [1, 1.0, True, '1', None], (1, (2, [3])),
+            {'a': 1, 'b': {'c': [1, 2, {'d': None}]}}, {1: 'int key', 2.5: 'float key', True: 'bool key', None: 'none key'},
+            {'1': 'a', 1: 'b'}, {'z': 1, 'a': 2, 'm': 3}, deep, ['x' * 300], {'k' * 100: 'long key'}]
+    return [_T(v) for v in vals]
+
+
+EXO_DIRS = [['d d'], ['d d', '\u00e9t\u00e9'], ['.hid']]
+EXO_LEAVES = [['x y'], ['.dot'], ['d d', 'f\u00fcr.txt'], ['d d', '\u00e9t\u00e9', 'z' * 200], ['.hid', '\u4e2d\u6587'],
+              ['d d', '\u00e9t\u00e9', '-dash']]
+
+CORRUPT = ['truncate', 'bitflip', 'notgzip', 'empty', 'gzip_nonjson', 'json_nonobject', 'other_software',
+           'newer_format', 'missing_key', 'dir']
+
+
+def make_refuse(seed, profile):
+    """Histories around refused calls (C15): wrong argument types, build name mismatch, unreadable /
+    truncated / non-gzip / non-JSON / foreign / newer-format cache files, cache path is a directory."""
+    rnd = random.Random('refuse:%s' % seed)
+    base = make_scenario(seed * 2, 'general')      # even seed -> never recurses into make_refuse
+    steps = []
+    builds_seen = 0
+    for st in base['steps']:
+        steps.append(st)
+        if st['op'] == 'build':
+            builds_seen += 1
+            if rnd.random() < 0.7:
+                kind = rnd.random()
+                call = rnd.choice(['build', 'build', 'clean'])
+                if kind < 0.3:
+                    bad = rnd.choice(['name_type', 'func_type', 'versions_type', 'versions_nonjson', 'cache_type',
+                                      'name_none'] if call == 'build' else ['name_type', 'cache_type'])
+                    steps.append({'op': call, 'name': 'B', 'vers': st.get('vers', {}), 'root': st.get('root', []),
+                                  'bad': bad})
+                elif kind < 0.45:
+                    steps.append({'op': call, 'name': 'OTHER', 'vers': st.get('vers', {}), 'root': st.get('root', [])})
+                else:
+                    how = rnd.choice(CORRUPT)
+                    steps.append({'op': 'ext', 'do': 'corrupt_cache', 'p': ['k'], 'how': how,
+                                  'arg': rnd.randrange(64)})
+                    for _ in range(rnd.choice([1, 1, 2])):
+                        c2 = rnd.choice(['build', 'clean'])
+                        steps.append({'op': c2, 'name': 'B', 'vers': st.get('vers', {}), 'root': st.get('root', []),
+                                      'noname': c2 == 'clean' and rnd.random() < 0.3})
+                    if rnd.random() < 0.7:
+                        steps.append({'op': 'ext', 'do': 'delete', 'p': ['k']})
+                if rnd.random() < 0.3:
+                    steps.append({'op': 'clean', 'name': 'B', 'noname': True})
+    base['steps'] = steps
+    base['id'] = '%s-%d' % (profile, seed)
+    return base
+
+
 def make_scenario(seed, profile='general'):
     P = PROFILES[profile]
+    if P.get('refuse'):
+        return make_refuse(seed, profile)
     if P.get('structured') and seed % 2 == 1:
         return make_structured(seed, profile)
     rnd = random.Random('%s:%s' % (profile, seed))
@@ -287,6 +366,13 @@ def make_scenario(seed, profile='general'):
         'raise': P.get('raise', 10), 'nocreate': P.get('nocreate', 6), 'nonjson': P.get('nonjson', 2),
         'p_probe': int(100 * P.get('p_probe', 0) / 4),
     }
+    if P.get('exotic'):
+        qpaths = EXO_DIRS + EXO_LEAVES
+        targets = list(EXO_LEAVES)
+        universe = list(qpaths)
+        orc['qpaths'] = qpaths
+        orc['targets'] = targets
+        orc['retpool'] = exotic_pool()
     if P.get('mutate'):
         orc['mutate'] = True
     if P.get('dup'):
@@ -363,7 +449,7 @@ def make_scenario(seed, profile='general'):
             if f in vers and rnd.random() < 0.2:
                 del vers[f]
             else:
-                vers[f] = rnd.choice(VERSION_TERMS)
+                vers[f] = rnd.choice(exotic_pool() if P.get('exotic_vers') else VERSION_TERMS)
         steps.append({'op': 'build', 'name': 'B', 'vers': vers, 'root': root})
         if rnd.random() < P.get('p_clean', 0.15):
             steps.append({'op': 'clean', 'name': 'B'})
